@@ -10,7 +10,8 @@
     [matches c t pf subs n] -- notification [n] is stored in a target selected
     by [t] under an index path that some completed subscription path matches
     ([qmatch]: wildcards at any position; origins are leading path elements). *)
-From Gnmi Require Import Base.Prelude CTree.CTreeModel CTree.CTreeProofs Subscribe.SubModel Subscribe.SubProofs.
+From Gnmi Require Import Base.Prelude CTree.CTreeModel CTree.CTreeProofs Subscribe.SubModel Subscribe.SubProofs
+  Subscribe.C05Check Subscribe.C07Check Subscribe.SubCheckProofs.
 
 (** ONCE, unchanging cache: the updates before the sync are exactly the
     matching leaves with their current values; exactly one sync, last; status
@@ -93,3 +94,50 @@ Theorem C05_query_reports_each_leaf_once :
   forall (tr : tree noti) q, wf_tree tr -> NoDup (map fst (query tr q)).
 Proof. exact query_nodup. Qed.
 Print Assumptions C05_query_reports_each_leaf_once.
+
+(** Concurrent writers -- PARTIAL.  Full statement wanted (once_weak): in the
+    LTS of the real goroutines (walker, sender, any number of cache writers)
+    every leaf matching throughout the ONCE call appears at least once with a
+    value it held during the call, nothing that never matched is sent, then
+    exactly one sync, then OK.  Proved here: the same two clauses over the
+    interleaving model [conc_walk] in which the cache moves through an
+    arbitrary history of states during the walk and each per-tree query is only
+    assumed to satisfy the weak query specification [weak_query] (what C10
+    establishes for ctree under concurrency); the set of targets is fixed during
+    the call.  Not proved: that ctree.Query under concurrent writers satisfies
+    [weak_query] (C10), and the LTS refinement itself. *)
+Theorem C05_once_weak_partial :
+  forall hist names pf subs ups,
+    conc_walk hist names pf subs ups ->
+    (forall n, In (RUpd n) ups ->
+       exists c t tr p sp full,
+         In c hist /\ In t names /\ assoc t c = Some tr /\ lookup tr p = Some n
+         /\ In sp subs /\ complete_path pf sp = Some full /\ qmatch full p = true)
+    /\ (forall t p sp full,
+          In t names -> In sp subs -> complete_path pf sp = Some full -> qmatch full p = true ->
+          (forall tr, In tr (trees_of hist t) -> lookup tr p <> None) ->
+          exists n c tr, In (RUpd n) ups /\ In c hist /\ assoc t c = Some tr /\ lookup tr p = Some n)
+    /\ ~ In RSync ups.
+Proof. exact once_weak_partial. Qed.
+Print Assumptions C05_once_weak_partial.
+
+(** the sequential walk of the model is the writer-free instance of [conc_walk] *)
+Theorem C05_sequential_walk_is_an_interleaving :
+  forall c rt pf subs,
+    wf_cache c -> snd (walk_subs c rt pf subs) = true ->
+    conc_walk [c] (sel_names c rt) pf subs (fst (walk_subs c rt pf subs)).
+Proof. exact walk_subs_conc. Qed.
+Print Assumptions C05_sequential_walk_is_an_interleaving.
+
+(** soundness of the executable specification applied to the implementation's
+    observations (C05Check.kp_snapshot) *)
+Theorem C05_kp_snapshot_sound :
+  forall rq pf d g,
+    kp_snapshot rq pf d g = [] -> r_updates_only rq = false ->
+    (exists l, g = l ++ [OSync] /\ ~ In OSync l)
+    /\ (forall e, In e d -> wants rq pf (fst (fst e)) (snd e) = true ->
+                  existsb (noti_eqb (snd e)) (before_sync g) = true)
+    /\ (forall n, In n (upds_of g) ->
+                  existsb (fun e => wants rq pf (fst (fst e)) (snd e) && noti_eqb n (snd e)) d = true).
+Proof. exact kp_snapshot_sound. Qed.
+Print Assumptions C05_kp_snapshot_sound.
